@@ -5,3 +5,4 @@ from pyvc import externals_chem  # noqa: F401  assumed contracts of deepcopy / R
 from . import bond  # noqa: F401
 from . import core  # noqa: F401
 from . import mol_gen  # noqa: F401
+from . import stochastic  # noqa: F401
